@@ -14,6 +14,7 @@ import pandapipes.topology as top
 from pandapipes.pf.pipeflow_setup import PipeflowNotConverged
 
 ID = "C18"
+CASE_WEIGHT = 64   # relative cost of one case (pool sizing)
 LEVEL = "exploration"
 RULE = ("all consistent patterns (no in-service branch on an out-of-service junction, no feeder on an out-of-service "
         "junction) of the 2^k flag lattices of the four C04 superset networks x multi in {True, False}; for the all-on and "
